@@ -306,3 +306,19 @@ def close(x, q, rel=1e-9):
 
 def frac_str(q):
     return '%d/%d' % (q.numerator, q.denominator)
+
+
+def nominal_metres(code):
+    """the distance an event code names, exactly (spec-side: independent of the table's km column and of get_distance)"""
+    import re as _re
+    from fractions import Fraction as F
+    c = ascii_upper(code)
+    if c == 'MILE': return F(1609344, 1000)
+    if c == 'HM': return F(210975, 10)
+    if c == 'MAR': return F(42195)
+    m = _re.match(r'^(\d+(?:\.\d+)?)(K|KM|KW|MT|M|MW|MI)?(W|H|SC)?$', c)
+    if not m: return None
+    q = F(m.group(1)); u = m.group(2)
+    if u in ('K', 'KM', 'KW'): return q * 1000
+    if u in ('MT', 'M', 'MW', 'MI'): return q * F(1609344, 1000)
+    return q
